@@ -9,7 +9,22 @@ C11 — DKG (Pedersen, incl. resharing and fast-sync): honest parties agree on k
 shares despite faults.
 
 Theorems about the executable model `Kyber.Dkg` (Proto/Dkg.lean — the definitions the driver runs and
-the harness compares with share/dkg/pedersen after every call of every participant).
+the harness compares with share/dkg/pedersen after every call of every participant). `cfg.fixLeaving`
+/ `cfg.fixPhase` select the code with fixes/C11-leaving-dealer-responses.patch /
+fixes/C11-agreement-phase-decision.patch applied; `false` is the code as it stands.
+
+Status of the five parts of the property:
+1. order independence — complete (all modes): `processDeals_perm`, `processResponses_perm`,
+   `processJustifications_perm`, `pset_order_dup_independent`, `processDeals_broadcast_order_dup_independent`;
+2. key algebra — complete for the fresh DKG over EVERY history (`fresh_run_share_on_output_polynomial`,
+   `dkg_result_algebra`, `dkg_key_is_sum_of_qual`, `output_shares_recover`); resharing: key preservation
+   relative to the coded check (`resharing_keeps_key_partial`);
+3. agreement — REFUTED for the code as it stands (`agreement_fails_as_coded`, a genuine defect replayed on
+   the real code); for the repaired code proved in parts (`…_partial`, gap named in §3);
+4. qualification rules — `complaint_row_not_qualified`, `evicted_not_qualified`,
+   `few_complaints_not_evicted`, `many_complaints_evicted`;
+5. all honest ⇒ everyone finishes — a checked instance only (`all_honest_finishes_partial`).
+Rabin DKG (share/dkg/rabin) is not modelled; its building block, Rabin VSS, is C10.
 -/
 namespace Kyber.Dkg
 open Polynomial Kyber.Scalar Kyber.Share
@@ -224,6 +239,82 @@ theorem output_shares_recover (q : Nat) [Fact q.Prime] (hq2 : 2 < q) (cs : List 
   apply (eq_iff_cast_eq _ _ h2 (Nat.mod_lt _ hq)).mpr
   rw [h3, toPoly_coeff_zero, ZMod.natCast_mod]
 
+/-- **Resharing keeps the key (`_partial`).** If `computeResharingResult` returns a result, at least
+`oldT` distinct dealers are used, and each used dealer's public polynomial passed the check that binds
+its constant term to the old public polynomial (`olddpub.Eval(dealer) = pub.Commit()`, the test coded in
+`ProcessDeals` and `ProcessJustifications`), then the new public key equals the old one:
+`Commits[0] = olddpub[0]`.
+Partial: the hypothesis `hchk` is the coded check, but it is not derived here from the history (an
+invariant "AllTrue(d) ⇒ d's bundle passed the check" through the three phases, as done for the fresh
+case in `fresh_run_share_on_output_polynomial`), and "the new share lies on the new polynomial" is not
+proved for resharing (the code itself re-checks it with `pubPoly.Check` and errors otherwise, which the
+model mirrors). -/
+theorem resharing_keeps_key_partial (c : Cfg) [Fact c.q.Prime] (hq2 : 2 < c.q) (st : St) (r : Result)
+    (h : computeResharingResult c st = some r) (hT : 1 ≤ c.oldT) (hnewT : 1 ≤ c.newT)
+    (hlen : c.olddpub.length ≤ c.oldT)
+    (hchk : ∀ n ∈ c.oldNodes, allTrue c st.statuses n.index = true →
+      ∃ pb, st.allPublics n.index = some pb ∧ n.index + 1 < 2 ^ 32 ∧ n.index + 1 < c.q ∧
+        pb.headD 0 % c.q = pubEvalI c.q c.olddpub n.index)
+    (hcnt : c.oldT ≤ ((c.oldNodes.filter (fun n => allTrue c st.statuses n.index)).map (·.index)).toFinset.card) :
+    r.commits.headD 0 = c.olddpub.headD 0 % c.q := by
+  have hq : 0 < c.q := by omega
+  unfold computeResharingResult at h
+  simp only at h
+  split at h
+  · cases h
+  · split at h
+    · cases h
+    · rename_i pp _
+      split at h
+      · cases h
+      · rename_i fc hfc
+        split at h
+        · cases h
+        · split at h
+          · cases h
+          · cases h
+            simp only
+            -- the first recovered coefficient
+            obtain ⟨k, hk⟩ : ∃ k, c.newT = k + 1 := ⟨c.newT - 1, by omega⟩
+            rw [hk, List.range_succ_eq_map, List.mapM_cons] at hfc
+            set l0 : List (Option Share) := (c.oldNodes.filter (fun n => allTrue c st.statuses n.index)).map
+              (fun n => some ⟨n.index, some (((st.allPublics n.index).getD []).getD 0 0)⟩) with hl0
+            simp only [Option.bind_eq_bind, Option.pure_def, Option.bind_eq_some_iff] at hfc
+            obtain ⟨v0, h0, tl, _, htl⟩ := hfc
+            have hfc0 : fc.headD 0 = v0 := by
+              simp only [Option.some.injEq] at htl
+              rw [← htl]; rfl
+            rw [hfc0]
+            have hon : OnCurve c.q (toPoly c.q c.olddpub) l0 := by
+              intro sh hsh v hv
+              simp only [hl0, List.mem_map, Option.some.injEq] at hsh
+              obtain ⟨n, hn, rfl⟩ := hsh
+              simp only [Option.some.injEq] at hv; subst hv
+              obtain ⟨hn1, hn2⟩ := List.mem_filter.mp hn
+              obtain ⟨pb, hp1, hp2, hp3, hp4⟩ := hchk n hn1 hn2
+              refine ⟨⟨hp2, hp3⟩, ?_⟩
+              have e : ((st.allPublics n.index).getD []).getD 0 0 = pb.headD 0 := by
+                rw [hp1]; cases pb <;> rfl
+              rw [e, ← ZMod.natCast_mod, hp4]
+              unfold pubEvalI
+              rw [pubEvalAt_eq_evalAt, evalAt_cast, xEval_cast]
+            have hfin : (validIdx l0).toFinset =
+                ((c.oldNodes.filter (fun n => allTrue c st.statuses n.index)).map (·.index)).toFinset := by
+              ext i
+              simp only [List.mem_toFinset, mem_validIdx, hl0, List.mem_map]
+              constructor
+              · rintro ⟨s, ⟨n, hn, hs⟩, rfl, _⟩
+                simp only [Option.some.injEq] at hs; subst hs
+                exact ⟨n, hn, rfl⟩
+              · rintro ⟨n, hn, rfl⟩
+                exact ⟨⟨n.index, _⟩, ⟨n, hn, rfl⟩, rfl, by simp⟩
+            obtain ⟨r0, e1, e2, e3⟩ := recoverCommit_eq_of_onCurve hq2 (toPoly c.q c.olddpub) c.oldT hT
+              (lt_of_lt_of_le (toPoly_degree_lt _) (by exact_mod_cast hlen)) l0 hon (by rw [hfin]; exact hcnt)
+            rw [h0, Option.some.injEq] at e1
+            subst e1
+            apply (eq_iff_cast_eq _ _ e2 (Nat.mod_lt _ hq)).mpr
+            rw [e3, toPoly_coeff_zero, ZMod.natCast_mod]
+
 /-! ### 3. Agreement
 
 Full statement (DESIGN §6 C11 (2)): two honest nodes fed the same broadcast history, whose own bundles
@@ -263,14 +354,6 @@ theorem agreement_restored_on_that_history :
     (runNode (ex5 true) true).map (·.commits) = (runNode (ex11 true) true).map (·.commits) ∧
     (runNode (ex5 true) true).map (·.commits) = (runNode (ex14 true) true).map (·.commits) := by
   decide
-
-/-- Two nodes have the same public configuration. -/
-structure SamePublicCfg (cA cB : Cfg) : Prop where
-  q : cA.q = cB.q
-  old : cA.oldNodes = cB.oldNodes
-  new : cA.newNodes = cB.newNodes
-  thr : cA.threshold = cB.threshold
-  nonce : cA.nonce = cB.nonce
 
 /-- **Agreement, part 1 (`agreement_partial`): the deal phase.** For a dealer that is neither of the
 two nodes, what the bundle loop of `ProcessDeals` does to `evicted` and `allPublics` is the same at
@@ -361,5 +444,76 @@ theorem result_determined_by_public_view_partial (cA cB : Cfg) (h : SamePublicCf
       simpa using this
     · cases hB
   · cases hA
+
+/-! ### 4. Qualification rules -/
+
+/-- **A dealer with an open complaint is not qualified** — in particular a dealer whose invalid deal to
+this (honest) node stayed unjustified: the node's own column still holds the complaint. -/
+theorem complaint_row_not_qualified (c : Cfg) (st : St) (r : Result) (h : computeDKGResult c st = some r)
+    (d : Nat) (m : NodeId) (hm : m ∈ c.newNodes) (hc : st.statuses d m.index = true) : d ∉ r.qual := by
+  obtain ⟨hq, _⟩ := dkg_result_algebra c st r h
+  rw [hq]
+  intro hd
+  obtain ⟨n, hn, rfl⟩ := List.mem_map.mp hd
+  have := (List.mem_filter.mp hn).2
+  simp only [Bool.and_eq_true, allTrue, List.all_eq_true] at this
+  have := this.1 m hm
+  simp [hc] at this
+
+/-- **An evicted dealer is never qualified**: `computeResult` turns its whole row into complaints. -/
+theorem evicted_not_qualified (c : Cfg) (hres : c.isResharing = false) (st : St) (r : Result)
+    (h : (computeResult c st).2 = some r) (d : Nat) (hd : st.evicted d = true) (hne : c.newNodes ≠ []) :
+    d ∉ r.qual := by
+  obtain ⟨_, _, e⟩ := computeResult_fresh c hres st
+  rw [e] at h
+  obtain ⟨m, hm⟩ := List.exists_mem_of_ne_nil _ hne
+  apply complaint_row_not_qualified c _ r h d m hm
+  have hin : included c.newNodes m.index = true := by
+    unfold included; rw [List.any_eq_true]; exact ⟨m, hm, by simp⟩
+  simp [computeResult, hd, hin]
+
+/-- **A dealer with fewer than `t` complaints is not evicted in the response phase.** -/
+theorem few_complaints_not_evicted (c : Cfg) (st : St) (d : Nat)
+    (h : lengthComplaints c st.statuses d < c.threshold) : (evictComplained c st).evicted d = st.evicted d := by
+  unfold evictComplained
+  have : ¬ c.threshold ≤ lengthComplaints c st.statuses d := by omega
+  simp [this]
+
+/-- … and `t` or more complaints evict it. -/
+theorem many_complaints_evicted (c : Cfg) (st : St) (n : NodeId) (hn : n ∈ c.oldNodes)
+    (h : c.threshold ≤ lengthComplaints c st.statuses n.index) : (evictComplained c st).evicted n.index = true := by
+  unfold evictComplained
+  have hin : included c.oldNodes n.index = true := by
+    unfold included; rw [List.any_eq_true]; exact ⟨n, hn, by simp⟩
+  simp [h, hin]
+
+/-! ### 5. All honest ⇒ everyone finishes
+
+Full statement: if every dealer's bundle is the one `Deals()` produces (polynomials of length `t`), every
+node emits no complaint and `ProcessResponses` on the empty response list returns a result whose QUAL
+is the whole group — for every `n`, `t`, index assignment, also in fast-sync and when resharing.
+Proved here only on a concrete instance (`_partial`: a checked example, not the general theorem); the
+correspondence runs evaluate the predicate `honest-run-incomplete` on every all-honest scenario. -/
+
+/-- In the five-node group of §3 with all dealers honest, every node finishes in the response phase with
+QUAL = everybody, all with the same commitment polynomial — both as coded and repaired. -/
+theorem all_honest_finishes_partial :
+    (∀ c ∈ [ex2 true, ex5 true, ex8 true, ex11 true, ex14 true, ex2 false, ex5 false, ex8 false, ex11 false, ex14 false],
+      (runNodeHonest c).map (·.qual) = some [2, 5, 8, 11, 14] ∧
+      (runNodeHonest c).map (·.commits) = (runNodeHonest (ex2 true)).map (·.commits)) := by
+  decide
+
+/-! ### The hypotheses are satisfiable -/
+
+/-- `fresh_run_share_on_output_polynomial` applies to the run of node 11 on the history of §3 (which ends
+in `ProcessJustifications`): its output share 10 lies on its output polynomial `4 + 7x + 10x²` at
+`x = 12` (mod 23). -/
+example : ((10 : Nat) : ZMod 23) = (toPoly 23 [4, 7, 10]).eval (((11 : Nat) : ZMod 23) + 1) := by
+  have hcfg : (ex11 false).isResharing = false := rfl
+  have h := fresh_run_share_on_output_polynomial (ex11 false) hcfg (stAfterDeals (ex11 false))
+    (Or.inr ⟨dealOf (ex11 false), by rfl⟩) (exDeals false)
+    (match processDeals (ex11 false) (stAfterDeals (ex11 false)) (exDeals false) with | .ok (s, _) => s | .error _ => initSt (ex11 false))
+    none (by rfl) [] [badJ] ⟨[5, 11, 14], [4, 7, 10], 11, 10⟩ (Or.inr (by rfl))
+  exact h
 
 end Kyber.Dkg
